@@ -205,6 +205,7 @@ TRANSPARENT_CALLS = (
     "core::option::Option::as_deref", "std::option::Option::as_deref",
     "core::convert::Into::into", "core::convert::From::from",
     "std::convert::Into::into", "std::convert::From::from",
+    "core::iter::IntoIterator::into_iter", "std::iter::IntoIterator::into_iter",
     "core::pin::Pin::new_unchecked", "std::pin::Pin::new_unchecked", "core::pin::Pin::new", "std::pin::Pin::new",
     "core::pin::Pin::get_mut", "core::pin::Pin::as_mut", "std::pin::Pin::as_mut", "std::pin::Pin::get_mut",
 )
